@@ -5,6 +5,7 @@
 C=$1; shift
 cd /repo && git status --porcelain --untracked-files=no | grep -v test_data/chain_ | grep . && { echo "repo dirty"; exit 2; }
 git diff $C^ $C | git apply -R || { echo "cannot revert $C on the current tree"; exit 2; }
+export VERIF_EVIDENCE_DIR=/verif/target/campaign-evidence-seed; mkdir -p $VERIF_EVIDENCE_DIR
 cd /verif
 for id in "$@"; do
   echo "=== fix $C reverted, check $id"
